@@ -60,6 +60,8 @@ pub struct AModel {
     pub start: f32,
     pub prev_v: f32,
     pub sus_prev_tick: f32,
+    /// sum of |change| over the sustain-level changes made since the previous tick ("any change the caller made")
+    pub sus_var: f32,
     pub param_event: bool,
 }
 
@@ -78,7 +80,7 @@ impl AdsrM {
         AdsrM {
             a,
             fs,
-            m: AModel { phase: REST, att: 0.001, dec: 0.001, rel: 0.001, sus: 1.0, s_fix: 0, n: 0, over: 0, start: 0.0, prev_v: a.value(), sus_prev_tick: 1.0, param_event: false },
+            m: AModel { phase: REST, att: 0.001, dec: 0.001, rel: 0.001, sus: 1.0, s_fix: 0, n: 0, over: 0, start: 0.0, prev_v: a.value(), sus_prev_tick: 1.0, sus_var: 0.0, param_event: false },
             times: std::sync::Arc::new(times),
             sustains: std::sync::Arc::new(sustains),
         }
@@ -223,7 +225,8 @@ impl Machine for AdsrM {
                     }
                 }
                 // ---- C03: continuity
-                let dsus = if ph0 == DECAY || ph0 == SUSTAIN || ph1 == SUSTAIN { (sus as f64 - self.m.sus_prev_tick as f64).abs() } else { 0.0 };
+                // "plus any change the caller made to the sustain level in between": granted in every phase
+                let dsus = (self.m.sus_var as f64).max((sus as f64 - self.m.sus_prev_tick as f64).abs());
                 let span = match ph0 {
                     ATTACK => 1.0 - start0 as f64,
                     DECAY => 1.0 - sus.min(self.m.sus_prev_tick) as f64,
@@ -239,6 +242,7 @@ impl Machine for AdsrM {
                 }
                 self.m.prev_v = v;
                 self.m.sus_prev_tick = sus;
+                self.m.sus_var = 0.0;
                 self.m.param_event = false;
                 out.obs = (ph1 as u64) << 32 | v.to_bits() as u64;
             }
@@ -297,12 +301,16 @@ impl Machine for AdsrM {
             }
             AOp::Sustain(s) => {
                 self.a.set_input(Input::Sustain(s.into()));
-                self.m.sus = SustainLevel::from(s).into();
+                let new_sus: f32 = SustainLevel::from(s).into();
+                self.m.sus_var += (new_sus - self.m.sus).abs();
+                self.m.sus = new_sus;
                 self.m.param_event = true;
             }
         }
-        if !matches!(op, AOp::Tick) {
-            // an event by itself never changes the output (the new segment starts from the level being output)
+        if !matches!(op, AOp::Tick | AOp::Sustain(_)) {
+            // a gate event or a time change by itself never changes the output (the new segment starts from the level
+            // being output); a sustain change may show at once: the statement bounds tick-to-tick changes only and
+            // adds the caller's sustain changes to the bound
             if self.a.value().to_bits() != v_before.to_bits() {
                 fnd.push(("C03", "event-changes-output", format!("{} changed the output from {:?} to {:?} without a tick", Self::op_str(op), v_before, self.a.value())));
             }
@@ -327,6 +335,7 @@ impl Machine for AdsrM {
         h.word(m.rel.to_bits() as u64 | (m.sus.to_bits() as u64) << 32);
         h.word(m.start.to_bits() as u64 | (m.prev_v.to_bits() as u64) << 32);
         h.word(m.sus_prev_tick.to_bits() as u64);
+        h.word(m.sus_var.to_bits() as u64);
         h.finish()
     }
     fn fork(&self) -> Self {
@@ -475,8 +484,8 @@ fn probe_increment(fs: f32, t: f32) -> u64 {
 }
 
 /// all 2^24 positions of every timed phase at the smallest in-range increment (4), 14 levels
-fn sweep_all_positions(ctx: &Ctx, rep: &mut Report, props: &[&'static str]) {
-    let fs = 192000.0f32;
+/// `slice`: only ~40 segments spread over each phase (first, last and every k-th) and three levels (quick tier)
+fn sweep_all_positions(ctx: &Ctx, rep: &mut Report, props: &[&'static str], fs: f32, slice: bool) {
     let inc_fast = probe_increment(fs, 0.001);
     let inc_slow = probe_increment(fs, 20.0);
     if inc_slow == 0 || inc_fast % inc_slow == 0 || inc_fast == 0 {
@@ -495,6 +504,13 @@ fn sweep_all_positions(ctx: &Ctx, rep: &mut Report, props: &[&'static str]) {
             let lv = LEVELS[((j / (nseg * nres)) % 14) as usize];
             let seg = (j / nres) % nseg;
             let r = j % nres;
+            if slice {
+                let li = (j / (nseg * nres)) % 14;
+                let k = (nseg / 36).max(1);
+                if !(li == 0 || li == 6 || li == 13) || !(seg % k == 0 || seg < 2 || seg + 3 >= nseg) {
+                    continue;
+                }
+            }
             let mut m = AdsrM::new(fs, vec![], vec![]);
             let mut script: Vec<String> = Vec::new();
             if !prelude(&mut m, &mut script, phase, lv, pr, lc) {
@@ -545,7 +561,7 @@ fn sweep_all_positions(ctx: &Ctx, rep: &mut Report, props: &[&'static str]) {
         }
     });
     let n = rep.counters.get("positions_visited").copied().unwrap_or(0);
-    rep.subruns.push(json!({"engine": "E2-sweep", "what": "every accumulator position of every timed phase at the smallest in-range increment (192 kHz, 20 s), all residues", "slow_increment": inc_slow, "coarse_increment": inc_fast, "levels": LEVELS, "ticks": n}));
+    rep.subruns.push(json!({"engine": "E2-sweep", "what": if slice { "a slice (about 40 segments per phase, 3 levels) of the accumulator positions of every timed phase at a smallest in-range increment, all residues" } else { "every accumulator position of every timed phase at the smallest in-range increment (192 kHz, 20 s), all residues" }, "fs": fs, "slow_increment": inc_slow, "coarse_increment": inc_fast, "levels": LEVELS, "ticks": n}));
     if rep.counters.get("sweep_segments").copied().unwrap_or(0) == 0 {
         rep.machinery("no sweep segment was reached".into());
     }
@@ -711,6 +727,48 @@ fn sweep_mid_phase_events(ctx: &Ctx, rep: &mut Report, props: &[&'static str]) {
             }
         }
     });
+    // the same with the phase ENTERED by the gate event slow as well (all three times equal and long): the first tick of
+    // the new segment may then move by a few 1e-5 only, so a segment that starts from anything but the level being
+    // output shows; positions include the first and the last percent of the phase (release tails, attack tops)
+    {
+        let configs2: Vec<(f32, f32)> = if thorough { vec![(192000.0, 0.5), (48000.0, 2.0), (1000.0, 20.0)] } else { vec![(192000.0, 0.5)] };
+        let fracs: [f64; 8] = [0.003, 0.02, 0.25, 0.6, 0.9, 0.97, 0.99, 0.999];
+        let gate_events: [&[&str]; 4] = [&["gate_on"], &["gate_off"], &["gate_off", "gate_on"], &["gate_on", "tick", "gate_off", "tick", "gate_on"]];
+        let lv2: [f32; 4] = [0.001, 0.25, 0.9, 1.0];
+        let jobs2 = (configs2.len() * 3 * lv2.len() * fracs.len() * gate_events.len()) as u64;
+        let c2 = &configs2;
+        par_ranges(ctx, rep, jobs2, jobs2, |_, lo, hi, lc| {
+            for j in lo..hi {
+                let mut x = j as usize;
+                let ev = gate_events[x % 4];
+                x /= 4;
+                let fr = fracs[x % 8];
+                x /= 8;
+                let lv = lv2[x % 4];
+                x /= 4;
+                let phase = [ATTACK, DECAY, RELEASE][x % 3];
+                x /= 3;
+                let (fs, t) = c2[x];
+                let mut m = AdsrM::new(fs, vec![], vec![]);
+                let mut script: Vec<String> = Vec::new();
+                if !prelude(&mut m, &mut script, phase, lv, pr, lc) {
+                    continue;
+                }
+                let total = (t as f64 * fs as f64) as u64;
+                let n = ((total as f64 * fr) as u64).max(1);
+                let mut ops = vec![format!("attack:{:?}", t), format!("decay:{:?}", t), format!("release:{:?}", t), format!("tick*{}", n)];
+                ops.extend(ev.iter().map(|e| e.to_string()));
+                ops.push(format!("tick*{}", 2 * total + 40));
+                ops.push("gate_off".into());
+                ops.push(format!("tick*{}", total + 40));
+                if !drive(&mut m, &mut script, &ops, pr, lc) {
+                    continue;
+                }
+                lc.count("mid_phase_event_runs", 1);
+                lc.count("mid_phase_event_runs_with_a_slow_following_phase", 1);
+            }
+        });
+    }
     rep.subruns.push(json!({"engine": "E2-sweep", "what": "one event (or event pair) applied at a lattice of positions inside each slow phase, then run to rest", "configs": configs.iter().map(|c| json!({"fs": c.0, "T": c.1})).collect::<Vec<_>>(), "positions_per_phase": npos, "events": events, "levels": levels.len(), "runs": jobs}));
 }
 
@@ -790,7 +848,12 @@ fn sweeps(ctx: &Ctx, rep: &mut Report, props: &[&'static str]) {
     sweep_increments(ctx, rep, props);
     sweep_mid_phase_events(ctx, rep, props);
     if ctx.tier.is_thorough() {
-        sweep_all_positions(ctx, rep, props);
+        sweep_all_positions(ctx, rep, props, 192000.0, false);
+        sweep_all_positions(ctx, rep, props, 160000.0, true);
+    } else {
+        // the slowest legal envelopes (increments 4 and 5 per tick), where the per-tick change approaches one f32 ulp
+        sweep_all_positions(ctx, rep, props, 192000.0, true);
+        sweep_all_positions(ctx, rep, props, 160000.0, true);
     }
     let n = rep.counters.get("ticks").copied().unwrap_or(0);
     rep.states += n;
@@ -915,6 +978,15 @@ pub fn plane(ctx: &Ctx, rep: &mut Report, cap_extra: u64) {
                 run_config(fs, t, lc, cap_extra);
                 lc.count("configurations", 1);
             }
+            // a fractional neighbour of every fourth rate (timer-derived rates are seldom whole numbers)
+            if i % 4 == 1 {
+                let ff = (fs + [0.5f32, 0.9, 0.03125, 0.333_333_34][((i / 4) % 4) as usize]).min(192000.0);
+                for t in [0.001f32, 0.01, 1.0 / ff, 100.0 / ff] {
+                    run_config(ff, t, lc, cap_extra);
+                    lc.count("configurations", 1);
+                    lc.count("configurations_at_a_non_integer_sample_rate", 1);
+                }
+            }
             // a time set twice with nearly equal values: the second one counts
             if i % 5 == 0 {
                 for (t, k) in [(0.05f32, 0.998f32), (0.02, 1.002), (0.011, 0.9985)] {
@@ -926,10 +998,10 @@ pub fn plane(ctx: &Ctx, rep: &mut Report, cap_extra: u64) {
         }
     });
     // named grid
-    let rates: [f32; 19] = [100.0, 101.0, 128.0, 441.0, 999.0, 1000.0, 1024.0, 4000.0, 8000.0, 16384.0, 22050.0, 32768.0, 44100.0, 48000.0, 65536.0, 88200.0, 96000.0, 131072.0, 192000.0];
+    let rates: [f32; 24] = [100.0, 101.0, 128.0, 441.0, 999.0, 1000.0, 1024.0, 4000.0, 8000.0, 16384.0, 22050.0, 32768.0, 44100.0, 48000.0, 65536.0, 88200.0, 96000.0, 131072.0, 192000.0, 100.5, 100.9, 999.5, 44117.647, 191999.5];
     let times: [f32; 24] = [-1.0, 0.0, 1.0e-6, 0.0005, 0.001, 0.0010000001, 0.0015, 0.002, 0.0039, 0.0078125, 0.01, 0.0625, 0.1, 0.25, 0.5, 1.0, 2.0, 5.0, 16.0, 19.999998, 20.0, 25.0, f32::INFINITY, f32::NAN];
     let limit: f64 = if thorough { 4.0e6 } else { 1.0e5 };
-    par_ranges(ctx, rep, 19 * 24, 19 * 24, |_, lo, hi, lc| {
+    par_ranges(ctx, rep, 24 * 24, 24 * 24, |_, lo, hi, lc| {
         for i in lo..hi {
             let fs = rates[(i / 24) as usize];
             let t = times[(i % 24) as usize];
@@ -949,9 +1021,22 @@ pub fn plane(ctx: &Ctx, rep: &mut Report, cap_extra: u64) {
             }
         }
     });
+    // the long corner of the plane (10^5 ... 3.84 * 10^6 ticks per phase), sparse in the quick tier
+    if !thorough {
+        let corner: Vec<(f32, f32)> = [5.0f32, 11.0, 16.0, 20.0].iter().flat_map(|t| [96000.0f32, 131072.0, 192000.0, 44100.0].map(|fs| (fs, *t))).chain([(100.9f32, 20.0f32), (191999.5, 7.3), (48000.0, 3.0)]).collect();
+        let cr = &corner;
+        par_ranges(ctx, rep, corner.len() as u64, corner.len() as u64, |_, lo, hi, lc| {
+            for i in lo..hi {
+                let (fs, t) = cr[i as usize];
+                run_config(fs, t, lc, cap_extra);
+                lc.count("configurations", 1);
+                lc.count("configurations_longer_than_100000_ticks_per_phase", 1);
+            }
+        });
+    }
     let n = rep.counters.get("configurations").copied().unwrap_or(0);
     let ticks = rep.counters.get("ticks").copied().unwrap_or(0);
-    rep.subruns.push(json!({"engine": "E2-sweep", "what": "sample rate x time plane, each configuration run through attack, decay and release", "integer_sample_rates": nrates, "stride": stride, "times_per_rate": 7, "named_grid": 19 * 24, "configurations": n, "ticks": ticks}));
+    rep.subruns.push(json!({"engine": "E2-sweep", "what": "sample rate x time plane, each configuration run through attack, decay and release", "integer_sample_rates": nrates, "stride": stride, "times_per_rate": 7, "named_grid": 24 * 24, "configurations": n, "ticks": ticks}));
     rep.states += n;
     rep.transitions += ticks;
     rep.traces += n;
@@ -960,7 +1045,7 @@ pub fn plane(ctx: &Ctx, rep: &mut Report, cap_extra: u64) {
 
 pub fn c02(ctx: &Ctx) -> Report {
     let mut rep = Report::new();
-    rep.rule.push("(P) E2: every integer sample rate in [100, 192000] (quick: every 7th) x T in {1 ms, 2 ms, 10 ms, 0.5/fs, 1/fs, 2/fs, 100/fs} plus a named 19 x 24 grid (clamped, infinite and NaN times included), each run on the real envelope through attack, decay and release with a watchdog: ticks per phase must lie in [max(1, ceil(N(1-2^-22))), N/(1-N/2^24)+2]; (H) E1: bounded-depth BFS over gate / tick / set_input histories against a five-state reference machine whose timed phases accumulate the per-tick ideal increment (so a mid-phase time change rescales only the remainder); (S) complete phase walks; non-trivial = phases timed in configurations + phase ends observed after more than one tick in histories".into());
+    rep.rule.push("(P) E2: every integer sample rate in [100, 192000] (quick: every 3rd) x T in {1 ms, 2 ms, 10 ms, 0.5/fs, 1/fs, 2/fs, 100/fs}, a fractional neighbour of every fourth of them, a named 24 x 24 grid with five non-integer rates, and a sparse long corner (5 ... 20 s at 44.1 ... 192 kHz) (clamped, infinite and NaN times included), each run on the real envelope through attack, decay and release with a watchdog: ticks per phase must lie in [max(1, ceil(N(1-2^-22))), N/(1-N/2^24)+2]; (H) E1: bounded-depth BFS over gate / tick / set_input histories against a five-state reference machine whose timed phases accumulate the per-tick ideal increment (so a mid-phase time change rescales only the remainder); (S) complete phase walks; non-trivial = phases timed in configurations + phase ends observed after more than one tick in histories".into());
     plane(ctx, &mut rep, 10);
     explore_h(ctx, &mut rep, &["C02"]);
     if ctx.tier.is_thorough() {
@@ -969,6 +1054,21 @@ pub fn c02(ctx: &Ctx) -> Report {
     sweep_increments(ctx, &mut rep, &["C02"]);
     sweep_mid_phase_events(ctx, &mut rep, &["C02"]);
     sweep_many_notes(ctx, &mut rep, &["C02"]);
+    // "sustain and rest persist until the next gate event": 70 000 ticks (thorough: 2^24 + 70 000) in each, judged by the model
+    {
+        let dwell: u64 = if ctx.tier.is_thorough() { (1 << 24) + 70_000 } else { 70_000 };
+        par_ranges(ctx, &mut rep, 2, 2, |_, lo, hi, lc| {
+            for j in lo..hi {
+                let fs = if j == 0 { 48000.0 } else { 100.9 };
+                let mut m = AdsrM::new(fs, vec![], vec![]);
+                let mut script: Vec<String> = Vec::new();
+                let ops: Vec<String> = vec![format!("tick*{}", dwell), "gate_on".into(), format!("tick*{}", dwell), "sustain:0.4".into(), format!("tick*{}", dwell), "gate_off".into(), format!("tick*{}", dwell), "gate_on".into(), "tick*3".into()];
+                drive(&mut m, &mut script, &ops, &["C02"], lc);
+                lc.count("long_dwell_runs", 1);
+            }
+        });
+        rep.require_nonzero("long_dwell_runs");
+    }
     rep.nontrivial = rep.counters.get("phases_timed").copied().unwrap_or(0) + rep.counters.get("phase_ends_after_more_than_one_tick").copied().unwrap_or(0);
     rep.require_nonzero("phases_shorter_than_one_sample");
     rep.require_nonzero("configurations_with_a_time_set_twice");
